@@ -38,8 +38,19 @@ let rec longer_than k l = match l with [] -> false | _ :: t -> if k = 0 then tru
 let rec nat_len acc = function O -> acc | S x -> nat_len (acc + 1) x
 let rec list_len acc = function [] -> acc | _ :: t -> list_len (acc + 1) t
 
+(* memoised (the function is pure): the corruption phase decodes the same frames thousands of times *)
+let crc_memo : (string, n) Hashtbl.t = Hashtbl.create 4096
 let crc (bs : n list) : n =
-  if longer_than 512 bs then n_of_int (Hash.crc32c (str_of_nlist bs)) else crc32c bs
+  if longer_than 512 bs then n_of_int (Hash.crc32c (str_of_nlist bs))
+  else begin
+    let k = str_of_nlist bs in
+    match Hashtbl.find_opt crc_memo k with
+    | Some c -> c
+    | None ->
+      let c = crc32c bs in
+      if Hashtbl.length crc_memo > 200000 then Hashtbl.reset crc_memo;
+      Hashtbl.replace crc_memo k c; c
+  end
 
 let () =
   let s = String.init 5000 (fun i -> Char.chr ((i * 7 + i / 13 + 5) land 255)) in
@@ -112,6 +123,8 @@ let split_group (sizes : int list) (data : string) (limit : z) : group =
   let (fs, h) = go 0 sizes in
   { g_min = O; g_files = List.map nlist_of_str fs; g_head = nlist_of_str h; g_buf = []; g_limit = limit }
 
+let prof = Sys.getenv_opt "C15_PROF" <> None
+
 let () =
   let tbl : (string, entry option) Hashtbl.t = Hashtbl.create 64 in
   let deser (bs : n list) : entry option =
@@ -133,6 +146,7 @@ let () =
     match input_line stdin with
     | exception End_of_file -> ()
     | line ->
+      let t0 = if prof then Unix.gettimeofday () else 0.0 in
       (match tokens line with
        | [] -> ()
        | "CASE" :: id :: limit :: _ ->
@@ -188,5 +202,9 @@ let () =
          Printf.printf "r %s %s | %s\n" (if ok then "ok" else "err") (fp (str_of_nlist out))
            (String.concat " " (List.map tok_obs (read_log crc deser false RGroup out)))
        | l -> failwith ("bad line: " ^ String.concat " " l));
+      if prof then begin
+        let dt = Unix.gettimeofday () -. t0 in
+        if dt > 0.05 then Printf.eprintf "%.2fs %s\n" dt (String.sub line 0 (min 60 (String.length line)))
+      end;
       loop () in
   loop ()
